@@ -84,3 +84,122 @@ func countFileIdRecords(frameBytes []byte) int {
 	}
 	return n
 }
+
+// fileIdEnd: the number of bytes of a stream that DecodeHeaderAndFileID needs: the header, the
+// first definition record and the first data record (independently of the library, from the bytes
+// alone; the data may be cut anywhere). ok=false: the bytes present do not even determine it
+// (cut inside the header or the definition), or the first record is not a definition.
+func fileIdEnd(data []byte) (int, bool) {
+	if len(data) < 12 {
+		return 0, false
+	}
+	hs := int(data[0])
+	if (hs != 12 && hs != 14) || len(data) < hs {
+		return 0, false
+	}
+	p := hs
+	if p >= len(data) || data[p]&0x80 != 0 || data[p]&0x40 == 0 {
+		return 0, false
+	}
+	h := data[p]
+	p++
+	if p+5 > len(data) {
+		return 0, false
+	}
+	nf := int(data[p+4])
+	p += 5
+	if p+3*nf > len(data) {
+		return 0, false
+	}
+	size := 0
+	for i := 0; i < nf; i++ {
+		size += int(data[p+3*i+1])
+	}
+	p += 3 * nf
+	if h&0x20 != 0 {
+		if p >= len(data) {
+			return 0, false
+		}
+		nd := int(data[p])
+		p++
+		if p+3*nd > len(data) {
+			return 0, false
+		}
+		for i := 0; i < nd; i++ {
+			size += int(data[p+3*i+1])
+		}
+		p += 3 * nd
+	}
+	// the data record: header byte + declared bytes
+	return p + 1 + size, true
+}
+
+// completeDataRecords: the number of data records lying completely inside the bytes given (the
+// stream may be cut anywhere), from the bytes alone. Definitions are tracked per local type.
+func completeDataRecords(data []byte) int {
+	if len(data) < 12 {
+		return 0
+	}
+	hs := int(data[0])
+	if (hs != 12 && hs != 14) || len(data) < hs {
+		return 0
+	}
+	end := len(data)
+	if ds := int(binary.LittleEndian.Uint32(data[4:8])); hs+ds < end {
+		end = hs + ds
+	}
+	b := data[hs:end]
+	var size [16]int
+	var have [16]bool
+	n, p := 0, 0
+	for p < len(b) {
+		h := b[p]
+		p++
+		switch {
+		case h&0x80 != 0:
+			l := (h >> 5) & 3
+			if !have[l] || p+size[l] > len(b) {
+				return n
+			}
+			n++
+			p += size[l]
+		case h&0x40 != 0:
+			if p+5 > len(b) {
+				return n
+			}
+			nf := int(b[p+4])
+			p += 5
+			if p+3*nf > len(b) {
+				return n
+			}
+			sz := 0
+			for i := 0; i < nf; i++ {
+				sz += int(b[p+3*i+1])
+			}
+			p += 3 * nf
+			if h&0x20 != 0 {
+				if p >= len(b) {
+					return n
+				}
+				nd := int(b[p])
+				p++
+				if p+3*nd > len(b) {
+					return n
+				}
+				for i := 0; i < nd; i++ {
+					sz += int(b[p+3*i+1])
+				}
+				p += 3 * nd
+			}
+			size[h&0x0F], have[h&0x0F] = sz, true
+		default:
+			l := h & 0x0F
+			if !have[l] || p+size[l] > len(b) {
+				return n
+			}
+			n++
+			p += size[l]
+		}
+	}
+	return n
+}
